@@ -163,8 +163,21 @@ func (cc *checkCtx) selectFuncs() []*ssa.Function {
 		}
 	}
 	var out []*ssa.Function
+	var excl []*regexp.Regexp
+	for _, x := range cc.prop.Exclude {
+		excl = append(excl, regexp.MustCompile("^(?:"+x+")$"))
+	}
 	for f := range set {
 		if len(f.Blocks) == 0 {
+			continue
+		}
+		skip := false
+		for _, re := range excl {
+			if re.MatchString(fnName(f)) {
+				skip = true
+			}
+		}
+		if skip {
 			continue
 		}
 		if cc.prop.SkipInlinable && p.inlinable(f) && !ast_IsExported(f) {
